@@ -181,20 +181,26 @@ fn get_table(
                     }
                     result.push(columns.into());
 
-                    // then, we add the rows
-                    package
+                    // then, we add the rows (if the table's data can't be
+                    // read, we return no table, rather than panicking across
+                    // the FFI boundary)
+                    match package
                         .select_rows(Select::table(table_name.to_str()))
-                        .expect("select")
-                        .for_each(|row| {
-                            let mut row_data: Vec<repr_c::String> =
-                                Vec::with_capacity(row.len());
-                            for index in 0..row.len() {
-                                row_data.push(row[index].to_string().into());
-                            }
-                            result.push(row_data.into());
-                        });
-
-                    result.into()
+                    {
+                        Ok(rows) => {
+                            rows.for_each(|row| {
+                                let mut row_data: Vec<repr_c::String> =
+                                    Vec::with_capacity(row.len());
+                                for index in 0..row.len() {
+                                    row_data
+                                        .push(row[index].to_string().into());
+                                }
+                                result.push(row_data.into());
+                            });
+                            result.into()
+                        }
+                        Err(_) => repr_c::Vec::EMPTY,
+                    }
                 }
                 None => repr_c::Vec::EMPTY,
             },
